@@ -147,6 +147,7 @@ def conv_task(src, dst, datatype, via_setter=False):
             N, psd = st["N"], st["psd"]
             native = "convert"
             hints = {"src": src, "dst": dst, "datatype": datatype, "setter": via_setter}
+            tc.native = ("axis", hints)
             if P.outcome != "return":
                 P.fail("no-exception", "raises %s" % P.value.exc, replay=(native, hints))
                 return
@@ -196,6 +197,7 @@ def axis_task(sides):
             st = P.interp.st
             N, fs = st["N"], st["fs"]
             hints = {"sides": sides}
+            tc.native = ("axis", hints)
             if P.outcome != "return" or not isinstance(P.value, Arr):
                 P.fail("no-exception", "frequencies() failed", replay=("axis", hints))
                 return
